@@ -15,10 +15,10 @@ package maven
 // ---- ComparableVersion on two tokens (C12): numbers numerically; known qualifiers by the rank table; an unknown qualifier after
 // every known one; unknown qualifiers alphabetically; a pre-release or unknown qualifier below any number
 //@   ensures numbers: e1.isNumber && e2.isNumber ==> result == (intof(e1.value) < intof(e2.value) ? -1 : (intof(e1.value) > intof(e2.value) ? 1 : 0))   [C03 C12]
-//@   ensures qualifier-rank: !e1.isNumber && !e2.isNumber && has(qualifierOrder, strof(e1.value)) && has(qualifierOrder, strof(e2.value)) ==> result == (qualifierOrder[strof(e1.value)] < qualifierOrder[strof(e2.value)] ? -1 : (qualifierOrder[strof(e1.value)] > qualifierOrder[strof(e2.value)] ? 1 : 0))   [C12]
+//@   ensures qualifier-rank: !e1.isNumber && !e2.isNumber && has(qualifierOrder, strof(e1.value)) && has(qualifierOrder, strof(e2.value)) ==> result == (qualifierOrder[strof(e1.value)] < qualifierOrder[strof(e2.value)] ? -1 : (qualifierOrder[strof(e1.value)] > qualifierOrder[strof(e2.value)] ? 1 : 0))   [C03 C12]
 //@   ensures known-before-unknown: !e1.isNumber && !e2.isNumber && has(qualifierOrder, strof(e1.value)) && !has(qualifierOrder, strof(e2.value)) ==> result == -1   [C12]
 //@   ensures unknown-alphabetical: !e1.isNumber && !e2.isNumber && !has(qualifierOrder, strof(e1.value)) && !has(qualifierOrder, strof(e2.value)) ==> result == (strof(e1.value) < strof(e2.value) ? -1 : (strof(e1.value) > strof(e2.value) ? 1 : 0))   [C12]
-//@   ensures qualifier-below-number: !e1.isNumber && e2.isNumber && strof(e1.value) != "" && strof(e1.value) != "sp" ==> result == -1   [C12]
+//@   ensures qualifier-below-number: !e1.isNumber && e2.isNumber && strof(e1.value) != "" && strof(e1.value) != "sp" ==> result == -1   [C03 C12]
 
 // the rank table: alpha < beta < milestone < rc = cr < snapshot < (release = ga = final) < sp, with a/b/m as aliases
 //@ lemma rank-table [C12]: qualifierOrder["alpha"] < qualifierOrder["beta"] && qualifierOrder["beta"] < qualifierOrder["milestone"] && qualifierOrder["milestone"] < qualifierOrder["rc"] && qualifierOrder["rc"] == qualifierOrder["cr"] && qualifierOrder["rc"] < qualifierOrder["snapshot"] && qualifierOrder["snapshot"] < qualifierOrder[""] && qualifierOrder[""] == qualifierOrder["ga"] && qualifierOrder[""] == qualifierOrder["final"] && qualifierOrder[""] == qualifierOrder["release"] && qualifierOrder[""] < qualifierOrder["sp"] && qualifierOrder["a"] == qualifierOrder["alpha"] && qualifierOrder["b"] == qualifierOrder["beta"] && qualifierOrder["m"] == qualifierOrder["milestone"]
